@@ -153,6 +153,9 @@ def source(tokeniser: 'Tokeniser') -> Generator[Flow4Source | Flow6Source, None,
         offset: str
         ip, netmask, offset = data.split('/')
         tokeniser.afi = AFI.ipv6
+        if not (_netmask(offset, 128) < _netmask(netmask, 128) or (_netmask(offset, 128) == 0 and _netmask(netmask, 128) == 0)):
+            # RFC 8956 3.1: unless both are zero the offset is smaller than the length, or the component is malformed
+            raise ValueError(f"'{data}' is not a valid flow prefix\n  The offset must be smaller than the length")
         yield Flow6Source.make_prefix6(IP.pton(ip), _netmask(netmask, 128), _netmask(offset, 128))
     else:
         raise ValueError(f"'{data}' is not a valid flow prefix\n  Format: <ipv4>/<mask>, <ipv6>/<mask> or <ipv6>/<mask>/<offset>")
@@ -179,6 +182,9 @@ def destination(tokeniser: 'Tokeniser') -> Generator[Flow4Destination | Flow6Des
         offset: str
         ip, netmask, offset = data.split('/')
         tokeniser.afi = AFI.ipv6
+        if not (_netmask(offset, 128) < _netmask(netmask, 128) or (_netmask(offset, 128) == 0 and _netmask(netmask, 128) == 0)):
+            # RFC 8956 3.1: unless both are zero the offset is smaller than the length, or the component is malformed
+            raise ValueError(f"'{data}' is not a valid flow prefix\n  The offset must be smaller than the length")
         yield Flow6Destination.make_prefix6(IP.pton(ip), _netmask(netmask, 128), _netmask(offset, 128))
     else:
         raise ValueError(f"'{data}' is not a valid flow prefix\n  Format: <ipv4>/<mask>, <ipv6>/<mask> or <ipv6>/<mask>/<offset>")
